@@ -50,6 +50,10 @@ Bad(c) ==
          ELSE IF kind = "normal" /\ c.x64 # JrNormal64(c.a, c.b, c.k) THEN "random-normal-value"
          ELSE IF kind = "expon" /\ ~c.ok THEN "random-exponential-value"
          ELSE IF kind \in {"uniform", "expon", "real"} /\ ~c.sup THEN "random-support" ELSE ""
+    [] c.c = "win" ->
+         \* an integer parameter of a built-in agent configured as a range [a, b] is drawn from [a, b): a <= value < b
+         IF c.out # "ok" THEN "agent-setup-raised-" \o c.out
+         ELSE IF c.tw < c.a \/ c.tw >= c.b \/ c.tr < c.ra \/ c.tr >= c.rb THEN "random-integer-parameter-outside-its-range" ELSE ""
     [] c.c = "cls" ->
          IF Resolves(c.nb, c.nr) # (c.res = "ok") THEN "class-lookup"
          ELSE IF c.res = "ok" /\ ~c.right THEN "class-lookup-wrong-class" ELSE ""
